@@ -101,7 +101,10 @@ fn race_layer(rep: &mut Report, args: &Args, rng: &mut Rng) {
   // The mutator subscribes "ab" (kept) and churns "b*" topics; it repeatedly unsubscribes "a"
   // (never subscribed: a no-op). No state in its history has a subscription that is a prefix of
   // "ac"/"a"/"a\0": matches() on that family must be false at every instant.
-  let rounds = if args.thorough() { 40 } else { 6 };
+  // under Miri (--only mirirace) the mutator is bounded by operations, not by time: Miri runs ~1000x slower and its
+  // scheduler and weak-memory emulation, not the wall clock, provide the interleavings
+  let miri_ops = if args.only.as_deref() == Some("mirirace") { Some(args.get_usize("ops", 40) as u64) } else { None };
+  let rounds = if miri_ops.is_some() { args.get_usize("rounds", 2) } else if args.thorough() { 40 } else { 6 };
   for r in 0..rounds {
     let trie = Arc::new(Trie::new());
     trie.subscribe(b"ab");
@@ -134,7 +137,7 @@ fn race_layer(rep: &mut Report, args: &Args, rng: &mut Rng) {
     }
     let t0 = Instant::now();
     let mut ops = 0u64;
-    while t0.elapsed() < Duration::from_millis(700) {
+    while miri_ops.map_or(t0.elapsed() < Duration::from_millis(700), |m| ops < m) {
       trie.unsubscribe(b"a"); // never subscribed
       trie.subscribe(b"bq");
       trie.unsubscribe(b"bq");
@@ -625,7 +628,7 @@ fn main() {
   let mut rep = Report::new("C12", &args.shard_name());
   let mut rng = Rng::new(args.seed.wrapping_mul(122949829).wrapping_add(args.shard as u64));
   match args.only.as_deref() {
-    Some("race") => race_layer(&mut rep, &args, &mut rng),
+    Some("race") | Some("mirirace") => race_layer(&mut rep, &args, &mut rng),
     Some("e2e") => {
       let rt = util::runtime(2);
       let n = if args.thorough() { 24 } else { 6 };
